@@ -523,12 +523,29 @@ class SequenceEncoder(AbstractItemEncoder):
     omitEmptyOptionals = False
 
     @staticmethod
-    def _isDefault(component, namedType):
+    def _isDefault(component, namedType, encodeFun, options):
+        defaultValue = namedType.asn1Object
+
         try:
-            return component == namedType.asn1Object
+            if component == defaultValue:
+                return True
 
         except error.PyAsn1Error:
-            # records that differ in the components present do not compare
+            # records do not compare when they hold their absent components
+            # differently (never set, placeholder)
+            pass
+
+        if (isinstance(defaultValue, base.SimpleAsn1Type) or
+                not isinstance(component, base.Asn1Item)):
+            return False
+
+        # constructed values: the order of SET OF members or the way an
+        # absent component is held do not matter, what they encode to does
+        try:
+            return (encodeFun(component, **options) ==
+                    encodeFun(defaultValue, **options))
+
+        except error.PyAsn1Error:
             return False
 
     @staticmethod
@@ -591,7 +608,8 @@ class SequenceEncoder(AbstractItemEncoder):
                             LOG('not encoding OPTIONAL component %r' % (namedType,))
                         continue
 
-                    if namedType.isDefaulted and self._isDefault(component, namedType):
+                    if namedType.isDefaulted and self._isDefault(
+                        component, namedType, encodeFun, options):
                         if LOG:
                             LOG('not encoding DEFAULT component %r' % (namedType,))
                         continue
@@ -665,7 +683,8 @@ class SequenceEncoder(AbstractItemEncoder):
                     if self._isDefaultPy(component, defaultValue):
                         continue
 
-                if namedType.isDefaulted and self._isDefault(component, namedType):
+                if namedType.isDefaulted and self._isDefault(
+                        component, namedType, encodeFun, options):
                     if LOG:
                         LOG('not encoding DEFAULT component %r' % (namedType,))
                     continue
